@@ -36,10 +36,12 @@ Theorem C16_flag_cleared_only : forall s e,
 Proof. exact flag_cleared_only. Qed.
 Print Assumptions C16_flag_cleared_only.
 
-(* --- no disclosure, FULL statement: while the flag is set, no statement typed at the prompt exposes plain
-   program text; the only observation at all is the cipher text of SAVE ,P *)
+(* --- no disclosure, FULL statement: while the flag is set (and nothing supplied in direct mode is part of the
+   program - which C16_flag_invariant guarantees for every program loaded from a protected file, and without
+   which RUN would execute the user's own PEEK lines), no statement typed at the prompt - including RUN, the
+   AUTO prompt, the EDIT prompt and FIELD - exposes plain program text; the only observation at all is the cipher text of SAVE ,P *)
 Theorem C16_no_disclosure : forall s o,
-  protected s = true -> run_mode s = false ->
+  protected s = true -> run_mode s = false -> tainted s = false ->
   ob (step s o) = NoObs \/ (o = OSave SP /\ ob (step s o) = cipher (prog s)).
 Proof. exact no_plain. Qed.
 Print Assumptions C16_no_disclosure.
